@@ -460,13 +460,16 @@ def h_float_half(field):
 # ---------------------------------------------------------------- cell: non-integer years/months rejected (concrete .5 values)
 def h_nonint():
     from dateutil.relativedelta import relativedelta
-    types = dict(n=int, which=int)
+    from fractions import Fraction
+    from decimal import Decimal
+    types = dict(n=int, which=int, form=int)
 
-    def fn(ctx, n, which):
+    def fn(ctx, n, which, form):
         ctx.assume(-6 <= n <= 6)
         ctx.assume(0 <= which <= 1)
-        n = ctx.concrete(n)
-        v = n + 0.5
+        ctx.assume(0 <= form <= 3)
+        n, form = ctx.concrete(n), ctx.concrete(form)
+        v = [n + 0.5, Fraction(2 * n + 1, 2), Decimal(n) + Decimal("0.5"), n - 0.25][form]
         try:
             relativedelta(**{("years", "months")[ctx.concrete(which)]: v})
         except ValueError:
